@@ -61,7 +61,7 @@ def run_cases(st, drv, items):
         st.evaluations += 1
         script = 'schema L1 %s\n%s' % (SCH.spec(), c.script())
         if r.status in ('crash', 'hang'):
-            st.violation('%s:%s' % (r.status, engine.sanitizer_summary(r.info)), script, str(e), r.info[-1500:])
+            st.violation('%s:%s' % (r.status, engine.sanitizer_summary(r.info)), script, str(e), engine.excerpt(r.info))
             continue
         rc = r.first('r parse_buf')
         dump = r.first('dump ')
